@@ -244,9 +244,9 @@ def check_hand_models(ctx):
             w = {"fn": "hand", "index": i, "factory": factory}
             try:
                 enc = DictEncoder(dict_factory=ff, context=XmlContext()).encode(obj)
-                back = DictDecoder(context=XmlContext()).decode(json.loads(json.dumps(enc)), M.UnionHolder)
+                back = DictDecoder(context=XmlContext()).decode(json.loads(json.dumps(enc)), type(obj))
                 text = JsonSerializer(dict_factory=ff, context=XmlContext()).render(obj)
-                back2 = JsonParser(context=XmlContext()).from_string(text, M.UnionHolder)
+                back2 = JsonParser(context=XmlContext()).from_string(text, type(obj))
             except Exception as e:  # noqa: BLE001
                 ctx.violation(f"hand-model-raises/{factory}/{bc.short_exc(e)}", f"{type(e).__name__}: {e}\n{obj!r}", w)
                 continue
